@@ -982,12 +982,25 @@ func (e *enc) ifaceContractsOf(f *ssa.Function) []ifaceImpl {
 			if parts[0] != f.Pkg.Pkg.Name() {
 				continue
 			}
-			tn, ok := f.Pkg.Pkg.Scope().Lookup(parts[1]).(*types.TypeName)
+			tf := strings.SplitN(parts[1], ".", 2)
+			tn, ok := f.Pkg.Pkg.Scope().Lookup(tf[0]).(*types.TypeName)
 			if !ok {
 				continue
 			}
-			sig, ok := tn.Type().Underlying().(*types.Signature)
-			if !ok || !types.Identical(sig, f.Signature) {
+			var sig *types.Signature
+			if len(tf) == 2 {
+				// the type of a struct field
+				if st, ok := tn.Type().Underlying().(*types.Struct); ok {
+					for i := 0; i < st.NumFields(); i++ {
+						if st.Field(i).Name() == tf[1] {
+							sig, _ = st.Field(i).Type().Underlying().(*types.Signature)
+						}
+					}
+				}
+			} else {
+				sig, _ = tn.Type().Underlying().(*types.Signature)
+			}
+			if sig == nil || !types.Identical(sig, f.Signature) {
 				continue
 			}
 			res = append(res, ifaceImpl{"functype:" + k, fc, tn, sig})
